@@ -40,6 +40,11 @@ def trigger_documents(tier):
         out.append(f'{pre}<div id="region_list">\n{{|\n|-\n| a || b\n|}}\n</div>')
         out.append(f'{pre}<div style="overflow:auto;height:200px">\n{{|\n|-\n| a || b\n|}}\n</div>')
         out.append(f"{pre}== S ==\n\n== T ==\npara\n\n<references/>")
+    # several scrolling elements inside one table (each of them makes remove_scroll_elements dissolve the table)
+    sc = 'style="overflow:auto;height:200px"'
+    out.append(f"{{|\n|-\n| {sc} | a\n| {sc} | b\n|}}\n")
+    out.append(f"{{|\n|-\n| <div {sc}>a</div>\n| <div {sc}>b</div>\n|-\n| <div {sc}>c</div> || d\n|}}\n")
+    out.append(f"{{| {sc}\n|-\n| {sc} | a\n|}}\n")
     # a table inside an image caption, directly and below one more wrapper (remove_broken_children)
     for wrap in ("{}", "<center>{}</center>", "<div>{}</div>", "<center><div>{}</div></center>"):
         inner = wrap.format("\n{|\n|-\n| a || b\n|-\n| c || d\n|}\n")
